@@ -288,6 +288,7 @@ class Matrix:
     def run(self, jobs, oracle, deadline_at=None, workers=None):
         """jobs: dicts with case, words, exe, flavour, pb, db, spurious, [horizon], [weight].  oracle(job, outcome) -> [(key,msg)]"""
         jobs = sorted(jobs, key=lambda j: -j.get('weight', 1))
+        self.oracle = oracle
 
         def one_(job, cpu):
             if self.machinery:
@@ -407,6 +408,15 @@ class Matrix:
             job, o = ex['job'], ex['outcome']
             r = replay(job['exe'], job['words'], o['sched'], spurious=job.get('spurious', 0), horizon=job.get('horizon', 5000))
             same = (r['obs'] == o['obs'] and r['end'] == o['end'] and r['status'] == o['status'] and bool(r['san']) == bool(o['san']))
+            if not same and not r['san'] and not o['san'] and getattr(self, 'oracle', None):
+                # the same schedule gave other VALUES this time (e.g. a result read from freed or uninitialised memory): it counts as reproduced
+                # if the oracle rejects the replayed execution for the same reason (same key)
+                again = [(self.key_hook(job, k) if self.key_hook else k) for k, m in (self.oracle(job, dict(o, obs=r['obs'], end=r['end'], status=r['status'])) or [])]
+                same = bool(again)        # rejected again (possibly for another reason: garbage values differ from run to run)
+                if not same and any(f2['example']['outcome']['san'] for f2 in self.fail.values()):
+                    # the replay happens to pass, and a sanitizer build of this run has already shown (reproducibly) what is wrong (use of released or
+                    # uninitialised memory makes the plain build's outcome vary): the sanitizer report is the finding, this one is dropped
+                    continue
             if not same or not verify(ex, r, key):
                 raise MachineryError('failing schedule did not reproduce on replay: key=%s case=%s sched=%s\nfirst: %s | %s | %s san=%s\nreplay: %s | %s | %s san=%s' % (
                     key, job['case'], o['sched'], o['status'], o['obs'], o['end'], o['san'], r['status'], r['obs'], r['end'], r['san']))
